@@ -1,6 +1,12 @@
 # Per-property configuration for the driver: budgets are case counts, never per-case time limits.
 PROPS = {
  'C09': {
+  'technique': 'property-based testing (rapidcheck) + exhaustive prefix enumeration + libFuzzer against a reference TLV codec',
+  'level_text': 'Generated TLV trees and byte strings are pushed through all three codecs and compared byte-for-byte / field-for-field with an independent '
+                'reference encoder and strict decoder, in both directions (fitting trees must serialize identically and round-trip; oversize trees and '
+                'mis-tiled inputs must be refused), for every output-buffer size class; all 2^16 two-byte header prefixes are enumerated exhaustively. '
+                'Sampling elsewhere: absence is not established.',
+  'level_note': 'Trusted: reference codec in ref/tlv.cpp (known-answer self-test in setup), clang ASan/UBSan for out-of-bounds writes, rapidcheck/libFuzzer.',
   'rule': 'rapidcheck choice strings decoded into TLV trees (tags 0..0x1fff with boundary bias, both flags, payload lengths with '
           'boundary bias, depth <= 6, parents steered to 65535/65536/65537 bytes of content), driven through the tree codec, the element '
           'codec, the parsers (with truncation / length-perturbation / form / byte mutations) and the file/socket stream readers; plus '
@@ -11,4 +17,8 @@ PROPS = {
   'essential_classes': ['tree:overflow-tree', 'element:overflow-tree', 'tree:buf-too-small', 'element:buf-too-small', 'parse:nested-mistiled', 'stream:complete', 'stream:truncated'],
   'assumptions': ['reference encoder/decoder in ref/tlv.cpp is correct (self-tested in setup)', 'clang ASan/UBSan report out-of-bounds accesses'],
  },
+}
+
+# properties without a check, with the reason (kept current)
+NOT_CLAIMED = {
 }
